@@ -97,3 +97,17 @@ DN = dict(name="dn_attrs", src="dn_attrs.c", checks=M, units=["crypto/keyformat/
 HARNESSES.append(DN)
 
 # x509_ext (getExplicitExtensions on a 22-byte symbolic buffer, harness/C09/x509_ext.c): no verdict in 30 min - not registered
+
+HARNESSES.append(
+    dict(name="rsa_pubkey", src="rsa_pubkey.c", checks=M, units=["crypto/keyformat/asn1.c"],
+         functions=["psRsaParseAsnPubKey", "getAsnLength", "getAsnSequence"], sources=["crypto/pubkey/rsa_parse_mem.c", "crypto/keyformat/asn1.c"],
+         assumptions=["rsa_pubkey: input is an object of exactly 12 bytes, contents arbitrary; pstm_read_asn is a checking stub; SHA-1 reads both ends of its input"],
+         undefined_ok="*", unwind=16, unwindset={"vf_bytes:/./": 60},
+         cases=[dict(name="size12", defs={"VF_SIZE": 12})]))
+
+HARNESSES.append(
+    dict(name="ec_pubkey", src="ec_pubkey.c", checks=M, units=["crypto/keyformat/asn1.c"],
+         functions=["getEcPubKey", "getAsnLength"], sources=["crypto/pubkey/ecc_parse_mem.c", "crypto/keyformat/asn1.c"],
+         assumptions=["ec_pubkey: input is an object of exactly 12 bytes, contents arbitrary; curve lookup arbitrary; psEccX963ImportKey is a checking stub; SHA-1 reads both ends of its input"],
+         undefined_ok="*", unwind=16, unwindset={"vf_bytes:/./": 60},
+         cases=[dict(name="size12", defs={"VF_SIZE": 12})]))
